@@ -37,9 +37,11 @@ REJECT_KINDS = ["other", "samename-atoms", "samename-count", "returned", "none",
 @st.composite
 def op_strategy(draw):
     k = draw(st.sampled_from(["call", "call", "call", "again", "call_ref", "reject", "reject", "mutate", "call_deg",
-                              "same_scale"]))
+                              "same_scale", "call_near", "call_near"]))
     if k == "same_scale":
         return ["same_scale"]
+    if k == "call_near":
+        return ["call_near", draw(gen.SEEDS), draw(st.sampled_from([1e-2, 1e-3, 1e-4, 1e-6]))]
     if k in ("call", "call_deg"):
         return [k, draw(gen.SEEDS), draw(st.integers(1, 99000))]
     if k == "again":
@@ -154,6 +156,16 @@ def check(case):
 
     for step, op in enumerate(case["ops"]):
         kind = op[0]
+        if kind == "call_near":
+            # the next frame of a slow trajectory: the previous argument plus a small jitter (results must follow it)
+            if not args:
+                continue
+            prev = args[-1]
+            coords = prev[1] + np.random.default_rng(op[1]).normal(0, op[2], prev[1].shape)
+            mol = build_molecule(rspec, coords=coords, resids=prev[2])
+            args.append((mol, coords.copy(), prev[2]))
+            do_call(step, len(args) - 1)
+            continue
         if kind in ("call", "call_deg"):
             coords = _conformation(rpos, rspec["edges"], op[1])
             if kind == "call_deg":
